@@ -161,7 +161,7 @@ def model(v, tier):
     """All TLC work that does not need the driver, side by side: exhaustive runs, self-checks, scenario
     generation.  Returns the histories."""
     from concurrent.futures import ThreadPoolExecutor
-    nb, nd = (150, 90) if tier == "quick" else (1800, 1000)
+    nb, nd = (150, 90) if tier == "quick" else (1500, 800)
     mcs = list(MC_QUICK) + (MC_THOROUGH if tier == "thorough" else [])
     with ThreadPoolExecutor(max_workers=6) as ex:
         fb = ex.submit(vf.tlc_scenarios, PID, "Scen_Auction", "Scen_Auction.cfg", num=int(nb * 1.05), depth=80, name="scen-best")
